@@ -483,6 +483,7 @@ variable [SqrtQ]
 
 /-! ## `Gradient.At` is the specification's `colorAt` -/
 
+omit [SqrtQ] in
 theorem init_eq (shape spread : UInt8) (m : Aff3 ℚ) (s0 s1 : Stop ℚ) (rest : List (Stop ℚ)) :
     (Gradient.init shape spread m (s0 :: s1 :: rest)).1 =
       ⟨shape, spread, m, makeRange s0 s1 :: appendRanges (s1 :: rest), s0.color,
@@ -543,6 +544,7 @@ theorem at_spec (shape spread : UInt8) (m : Aff3 ℚ) (s0 s1 : Stop ℚ) (rest :
         chanTail_spec (·.b) (·.b) (fun _ => rfl) rest s0 s1 o hinc (fun s hs => (hok s hs).2.2.1) hge,
         chanTail_spec (·.a) (·.a) (fun _ => rfl) rest s0 s1 o hinc (fun s hs => (hok s hs).2.2.2) hge]
 
+omit [SqrtQ] in
 theorem specStops_getElem (stops : List (Stop ℚ)) (i : Nat) (hi : i < stops.length) :
     (specStops stops)[i]'(by simpa [specStops] using hi) = (stops[i].offset, toCol stops[i].color) := by
   simp [specStops]
@@ -692,10 +694,12 @@ variable [SqrtQ]
 
 /-! ## the stops and the matrix `initGradient` hands to `Init` -/
 
+omit [SqrtQ] in
 theorem rgba64Of_ok (c : RGBA) : chanOK (rgba64Of c) := by
   have := c.r.toNat_lt; have := c.g.toNat_lt; have := c.b.toNat_lt; have := c.a.toNat_lt
   simp only [chanOK, rgba64Of]; omega
 
+omit [SqrtQ] in
 theorem rgba64Of_premul (c : RGBA) (h : c.validPremul = true) :
     (rgba64Of c).r ≤ (rgba64Of c).a ∧ (rgba64Of c).g ≤ (rgba64Of c).a ∧ (rgba64Of c).b ≤ (rgba64Of c).a := by
   simp only [RGBA.validPremul, Bool.and_eq_true, decide_eq_true_eq, UInt8.le_iff_toNat_le] at h
@@ -831,6 +835,7 @@ theorem initGradient_spec (z : Renderer ℚ ℚ) (rgba : RGBA) (g : Gradient ℚ
       rw [if_pos hok] at h'
       exact (Option.some.inj h').symm
 
+omit [SqrtQ] in
 /-- `pix2grad_compose`: applying the matrix `initGradient` builds to pixel coordinates `(px, py)` is
     applying the NREG matrix `[a b c; d e f]` to the viewBox point `(px/scaleX − biasX, py/scaleY − biasY)`
     (`unabsX px`, `unabsY py`: the inverse of the viewBox-to-pixel map) -/
@@ -870,5 +875,15 @@ theorem gradient_at_spec (z : Renderer ℚ ℚ) (rgba : RGBA) (g : Gradient ℚ)
   · exact at_spec _ _ _ s0 s1 rest hinc (fun s hs => (hall s hs).1) x y
   · exact premul_valid _ _ _ s0 s1 rest hinc (fun s hs => (hall s hs).1) (fun s hs => (hall s hs).2.1) x y
 end
+
+/-- a concrete register state holding a two-stop linear gradient (opaque black at 0, transparent at 1, along
+    the x axis of the default viewBox), for non-vacuity examples -/
+def exampleState : Renderer ℚ ℚ :=
+  let z := ((Renderer.zero (α := ℚ) (β := ℚ)).setRasterizer ⟨0, 0, 64, 64⟩).reset 100 ⟨-32, -32, 32, 32⟩ defaultPalette
+  { z with cReg := (z.cReg.set6 10 ⟨0, 0, 0, 0xff⟩).set6 11 ⟨0, 0, 0, 0⟩,
+           nReg := (((z.nReg.set6 4 (1 / 64)).set6 6 (1 / 2)).set6 10 0).set6 11 1 }
+
+theorem example_accepted : (exampleState.initGradient (encodeGradient 10 10 0 1 2)).isSome = true := by
+  decide +kernel
 
 end Ivg.GradQ
